@@ -741,7 +741,10 @@ subroutine solve_t(initial_values, t, min_iter, max_iter, tol, offset, convergen
      return
   end if
 
-  ! Solve
+  ! Solve (no error should there be no iterations to run i.e. if `max_iter` is
+  ! zero)
+  error_code = 0
+
   do iteration = 1, max_iter
 
      ! Save the values of the convergence variables
